@@ -42,7 +42,7 @@ KW_NOSEMI = {b"if", b"for", b"func", b"go", b"var", b"type", b"map", b"chan", b"
 SEMI_OPS = {b")", b"]", b"}", b"++", b"--"}
 
 # inputs of the dimensions on which the two real scanners are known to differ (DESIGN section 7);
-# the same on every run; every one that fails must be listed in known_findings.d/C16.txt
+# the same on every run; every one that fails must be listed in known_findings.txt
 FINDING_SET = [
     b"~", b"a~b", b"~T",
     b"!\n", b"x!\n", b"!", b"a ! \n b", b"!//c\n",
